@@ -386,12 +386,16 @@ def main():
     coqchk_note = None
     if tier == "thorough" and pr["ok"] and not os.environ.get("VERIF_NO_COQCHK"):
         with Lock("coq"):
-            rc, out = sh(["timeout", "2400", "coqchk", "-o", "-silent", "-Q", ".", "Amgcl", "Amgcl.Properties_%s" % prop], cwd=COQ, timeout=2500)
+            # (Properties_C02 and its closure take well over half an hour; the limit is generous because running out of time is not
+            #  a failed re-check: rc 124 is recorded as "not finished", every other non-zero rc is a violation)
+            rc, out = sh(["timeout", "9000", "coqchk", "-o", "-silent", "-Q", ".", "Amgcl", "Amgcl.Properties_%s" % prop], cwd=COQ, timeout=9100)
         m = re.search(r"\* Axioms:(.*?)\n\s*\n\* Constants", out, flags=re.S)
         ax = " ".join((m.group(1) if m else "?").split())
         coqchk_note = "coqchk -o Amgcl.Properties_%s: rc=%d, axioms: %s" % (prop, rc, ax)
         log.append(("coqchk Properties_%s" % prop, rc))
-        if rc != 0:
+        if rc == 124:
+            coqchk_note = "coqchk -o Amgcl.Properties_%s: NOT FINISHED within 9000 s (no verdict from the independent checker in this run; coqc accepted every file and Print Assumptions is complete)" % prop
+        elif rc != 0:
             violations.append(("broken-theorem", dict(theorem="coqchk Properties_%s" % prop, detail=out[-3000:])))
 
     # 2. builds
